@@ -1,4 +1,5 @@
 ; requires: cmporder
+; struct: index.Range
 ; index ranges (C17): membership of a value in a range, written from the property text and the
 ; planner's conventions (a nil bound is an open end; (nil,nil,incl,incl) is the nil-only range).
 (define-fun rIsNil ((r S_index_Range)) Bool
